@@ -8,6 +8,7 @@ import (
 
 	"github.com/jamf/regatta/regattapb"
 	"github.com/jamf/regatta/storage/table/fsm"
+	"github.com/jamf/regatta/util/iter"
 	sm "github.com/lni/dragonboat/v4/statemachine"
 	"pgregory.net/rapid"
 
@@ -253,7 +254,23 @@ func (e *Exec) Read(stepNo int, s Step) *vt.Failure {
 	want := e.M.Read(req)
 	e.Reads++
 	if s.Op == "iter" {
-		chunks, ierr := e.R.Iterate(req)
+		var chunks []*regattapb.ResponseOp_Range
+		var ierr error
+		if stepNo%2 == 1 && req.RangeEnd != nil {
+			// the streamed answer is obtained first and consumed only after the state machine served other reads (what a server
+			// does between a stream's lookup and its first pull)
+			var v any
+			if v, ierr = e.R.SM.Lookup(fsm.IteratorRequest{RangeOp: req}); ierr == nil {
+				_, _ = e.R.Range(&regattapb.RequestOp_Range{Key: []byte("unrelated-point-read")})
+				_, _ = e.R.Range(&regattapb.RequestOp_Range{Key: []byte{0}, RangeEnd: []byte("b"), Limit: 1})
+				v.(iter.Seq[*regattapb.ResponseOp_Range])(func(x *regattapb.ResponseOp_Range) bool {
+					chunks = append(chunks, x)
+					return true
+				})
+			}
+		} else {
+			chunks, ierr = e.R.Iterate(req)
+		}
 		if ierr != nil {
 			return e.fail("read-error", stepNo, "iterator lookup: %v", ierr)
 		}
